@@ -1710,8 +1710,9 @@ func (s *Netceptor) handleMessageData(md *MessageData) error {
 		verifhook.Yield("deliver", md.ToService)
 		select {
 		case <-pc.context.Done():
-			close(pc.recvChan)
-
+			// The socket was closed while this packet was waiting to be read; drop it. The channel must not
+			// be closed from here: several deliveries (one per sending connection, plus local senders) can be
+			// waiting at the same time, and the second close - or another delivery's send - would panic.
 			return nil
 		case pc.recvChan <- md:
 		}
